@@ -392,6 +392,7 @@ def depth_bound(text):
 # payload-seeded documents (C08 / C17 / C01) ----------------------------------------
 
 PAYLOAD_ATOMS = ['"', "'", '<', '>', '&', '\\', '`', ' ', '(', ')', '[', ']', '{', '}', '=', '/', ';', '#', '%', '\t',
+                 '&#1114112;', '&#9999999;', '&#x110000;', '&#xFFFFFF;', '&#0;', '&#xD800;', '&#128;', '&#1114111;', '&NoSuchEntity;', '&#;',
                  'onerror=', 'javascript:', '<script>', '</a>', '-->', '&quot;', '&#34;', '&lt;', 'x', 'é', '"><b>', "' x='", '\\"', '%22', '{inner}', '{0}']
 CLASSIC = ['x"onerror="alert(1)', '"><script>alert(1)</script>', "' onmouseover='x", 'javascript:alert("1")', 'a&b<c>d"e\'f',
            '</code></pre><b>', 'http://a@b/"x', 'x" y="z', '{inner}', '&#34;&#60;', '\\"\\<', 'a"b', 'a<b', 'a>b', '<', '>', '"',
